@@ -49,6 +49,13 @@ func (r *RouteRegistry) RegisterProxyRoute(route string, handler http.HandlerFun
 	r.registerWithMethod(route, wrappedHandler, description, method, true)
 }
 
+// RegisterGuardedRoute registers a route that is not a catch-all proxy route but still forwards
+// client requests to a backend (e.g. a translator endpoint), so it must pass the security chain
+// (rate and size limits) like the proxy routes do.
+func (r *RouteRegistry) RegisterGuardedRoute(route string, handler http.HandlerFunc, description, method string) {
+	r.registerWithMethod(route, handler, description, method, true)
+}
+
 func (r *RouteRegistry) registerWithMethod(route string, handler http.HandlerFunc, description, method string, isProxy bool) {
 	r.routes[route] = RouteInfo{
 		Handler:     handler,
